@@ -149,6 +149,20 @@ def run_sed(case, ctx):
                 got = r.apertures.to(u.au).value
                 if len(got) != nap or any(not close(g, w, 1e-12) for g, w in zip(got, case['apertures'])):
                     fail('%s: apertures %r, stored %r' % (what, list(got), case['apertures'][:nap]), 'c12:sed_apertures')
+        # requesting the other order ONLY reverses the spectral axis - also when a flux unit of another family is
+        # requested (the default unit_flux of SED.read is erg/cm^2/s whatever the file holds)
+        others = [x for x in UNITS if x != case['unit']]
+        other = others[(len(case['wav']) + nap) % len(others)]
+        with must_succeed('SED.read(unit_flux=%s) in both orders' % other):
+            rn = SED.read(path, unit_flux=unit_of(other), order='nu')
+            rw = SED.read(path, unit_flux=unit_of(other), order='wav')
+        for key in ('wav', 'nu', 'flux', 'error'):
+            a = np.asarray(getattr(rn, key).value)
+            b = np.asarray(getattr(rw, key).value)[..., ::-1]
+            if a.shape != b.shape or np.any(np.abs(a - b) > 1e-13 * np.abs(a)):
+                fail('SED stored in %s and read in %s: order=wav is not the reverse of order=nu for %s (e.g. %r vs %r)' % (
+                    case['unit'], other, key, a.ravel()[:2].tolist(), b.ravel()[:2].tolist()), 'c12:order_changes_values')
+        labels.add('cross_unit_' + other)
         # the file itself, by the independent reader: cell i belongs to stored wavelength i
         f = pkgio.read_sed_file(path)
         for p in range(len(f['wav'])):
